@@ -102,6 +102,7 @@ N_CFG_QUICK = 3
 N_CFG_THOROUGH = 6
 K_VARIANTS = 3
 N_GEN = 1000
+N_RC = 40
 
 
 def file_cfgs(f, n):
@@ -144,6 +145,12 @@ def elements_for_file(f, tier):
     if tier != "quick":
         for ch in file_pairs(f):
             out.append({"file": f, "cfg": "jcl", "variant": ch})
+    # configurations outside the hashed pool: prerequisites disabled; indexed random configurations
+    out.append({"file": f, "cfg": "prereq_disabled"})
+    h = harness.stable_hash("rc", f)
+    out.append({"file": f, "cfg": "rc%d" % (h % N_RC)})
+    if tier != "quick":
+        out.append({"file": f, "cfg": "rc%d" % ((h // N_RC) % N_RC)})
     return out
 
 
@@ -199,6 +206,8 @@ def universe(tier, seed, n_quick, n_thorough, variants=True, gen=True, corpus_fi
         cf = file_cfgs(f, ncfg)
         for cfg in cf[: (2 if tier == "quick" else ncfg)]:
             add({"file": f, "cfg": cfg})
+        if tier != "quick":
+            add({"file": f, "cfg": "prereq_disabled"})
         # hostile base: a comment at EVERY line end of every file
         add({"file": f, "cfg": "jcl", "variant": [["allcomment", 0]]})
     if full:
